@@ -24,7 +24,7 @@ MCInit == /\ Init
           /\ obs = O!ObsInit(CfgRec)
           /\ act = [a |-> "init"]
 
-Status(k) == CASE k = "ok" -> 200 [] k = "fail" -> 500 [] k = "abort" -> 0 [] OTHER -> 200
+Status(k) == CASE k = "ok" -> 200 [] k = "fail" -> 500 [] k = "cancel" -> 502 [] k = "abort" -> 0 [] OTHER -> 200
 Kind(k) == CASE k = "abort" -> "aborted" [] k = "no_backend" -> "no_backend" [] OTHER -> "proxied"
 
 \* feed the events of the step just taken to the observer, accumulating violations
